@@ -1,22 +1,22 @@
 SPECIFICATION Spec
 CONSTANTS
   Keys = {"k1", "k2"}
-  Times = {0, 1}
+  Times = {0}
   Types = {"n", "b"}
-  Threads = {"w1", "w2", "w3", "s1", "d1", "r1"}
-  Writers = {"w1", "w2", "w3"}
+  Threads = {"w1", "w2", "s1", "d1", "r1"}
+  Writers = {"w1", "w2"}
   Snappers = {"s1"}
   Deleters = {"d1"}
   Readers = {"r1"}
   Limit = 60
   Sequential = FALSE
-  SplitLoads = TRUE
+  SplitLoads = FALSE
   Fused = TRUE
   BKeys = {"k1", "k2"}
   PerWriter = 1
   RandomPick = FALSE
   Rich = FALSE
-  MaxWrites = 3
+  MaxWrites = 2
   MaxSnaps = 1
   MaxDeletes = 1
   MaxReads = 1
